@@ -77,6 +77,7 @@ func runC19(c *core.Ctx) {
 	if sortFn == nil {
 		c.Unknown("R1", "Sort/only-stable", "-", "function not found")
 	} else {
+		sortFn := core.SameParamsImpl(p, sortFn) // `Sort(fn, xs)` may be `sortWith(fn, xs, true)`
 		trivial := func(b, s2 *ssa.BasicBlock) bool {
 			iff, ok := b.Instrs[len(b.Instrs)-1].(*ssa.If)
 			if !ok || len(b.Succs) != 2 {
@@ -356,7 +357,7 @@ func runC19(c *core.Ctx) {
 				return
 			}
 			// arguments: (item1, item2, descriptors, 0)
-			if len(call.Call.Args) < 4 {
+			if len(call.Call.Args) < 3 {
 				dF = "the comparator does not call the descriptor comparison with (item1, item2, descriptors, 0)"
 				return
 			}
@@ -365,7 +366,7 @@ func runC19(c *core.Ctx) {
 				dF = "the descriptor comparison does not take (item1, item2, descriptors, index)"
 				return
 			}
-			argsOK := call.Call.Args[q1] == ssa.Value(cl.Params[np-2]) && call.Call.Args[q2] == ssa.Value(cl.Params[np-1]) && core.IsIntConst(call.Call.Args[qi], 0)
+			argsOK := call.Call.Args[q1] == ssa.Value(cl.Params[np-2]) && call.Call.Args[q2] == ssa.Value(cl.Params[np-1]) && (qi < 0 || core.IsIntConst(call.Call.Args[qi], 0))
 			descrOK := core.Unwrap(core.Resolve(sbdFV.Outer(call.Call.Args[ql]))) == ssa.Value(sbd.Params[0])
 			switch {
 			case !argsOK:
@@ -601,7 +602,7 @@ func c19recursion(p *core.Prog, f *ssa.Function) (bool, string) {
 	}
 	// args: same items, same descriptors, index+1 (whatever the order of the parameters)
 	r1, r2, rl, ri, okRoles := c19roles(f)
-	if !okRoles || len(rec.Call.Args) != len(f.Params) {
+	if !okRoles || ri < 0 || len(rec.Call.Args) != len(f.Params) {
 		return false, "the recursive step is not (item1, item2, descriptors, index+1)"
 	}
 	step, ok := rec.Call.Args[ri].(*ssa.BinOp)
@@ -672,7 +673,7 @@ func c19iteration(p *core.Prog, f *ssa.Function) (bool, string) {
 			idxPrm = prm
 		}
 	}
-	if list == nil || idxPrm == nil {
+	if list == nil {
 		return false, "later descriptors are never consulted: ties of the first key are not broken"
 	}
 	var phi *ssa.Phi
@@ -683,7 +684,8 @@ func c19iteration(p *core.Prog, f *ssa.Function) (bool, string) {
 			return
 		}
 		for i, e := range ph.Edges {
-			if core.Resolve(ph.Edges[1-i]) == ssa.Value(idxPrm) && c19idxPlus1(e, ph) {
+			start := core.Resolve(ph.Edges[1-i])
+			if (idxPrm != nil && start == ssa.Value(idxPrm) || idxPrm == nil && core.IsIntConst(start, 0)) && c19idxPlus1(e, ph) {
 				phi, back = ph, i
 			}
 		}
@@ -756,7 +758,8 @@ func c19roles(f *ssa.Function) (i1, i2, list, idx int, ok bool) {
 			i2 = i
 		}
 	}
-	return i1, i2, list, idx, i1 >= 0 && i2 >= 0 && list >= 0 && idx >= 0
+	// (idx may be -1: the iterative form can start at the constant 0 instead of taking a start index)
+	return i1, i2, list, idx, i1 >= 0 && i2 >= 0 && list >= 0
 }
 
 // c19hasNextFact: the decided condition says "there is a descriptor after index" - (index+1) < len(list) spelled directly,
